@@ -86,6 +86,29 @@ PROPS = {
         "technique": "Coq proof over a model of compact JWS parsing / signing input / verification dispatch + vm_compute correspondence "
                      "with tamper enumeration on real keys",
     },
+    "C10": {
+        "cmd": "c10", "seed": 110, "gentie": 0, "corr": ["Parser"], "coq_dirs": ["Parser", "Hash", "Jws", "Corr/Parser", "GenTie/Parser", "Props/C10"],
+        "rule": "valid create/update/recover/deactivate requests (keys of all types, both hash algorithms) and signed-data level "
+                "variants (nonce sizes, key re-use, equal commitments, other revealed key, other signed suffix, hash mismatch, no delta, "
+                "disabled action) mutated field by field (delete/null/wrong type/empty/over-long/garbage/unsupported code), under 16 "
+                "configurations in which every limit is placed exactly at and one below the request's actual value and every algorithm "
+                "list is narrowed alone; entry points Parse (intake, with an accepting and a refusing time validator), "
+                "ParseOperation(batch), GetRevealValue, GetCommitment; plus arbitrary bytes; all under recover; non-trivial = not an "
+                "arbitrary-bytes case that is simply rejected; distinct by (label, configuration, entry point)",
+        "trusted_base": ["modelled, not verified (facts of lower layers): encoding/json struct decoding, go-jose header decoding, JCS "
+                         "canonical bytes of decoded structs (C07), per-patch validator verdicts (C18); hashing/base64/multihash are "
+                         "computed in Coq, not facts"],
+        "assumptions": ["protocol parameters below 2^62"],
+        "level_text": "Theorems per operation type: intake acceptance implies request size <= MaxOperationSize, canonical delta <= "
+                      "MaxDeltaSize, every hash field within MaxOperationHashLength and a well-formed multihash of an allowed algorithm, "
+                      "allowed signature algorithm and key curve, nonce of NonceSize bytes, enabled and valid patches, reveal value = hash "
+                      "of the signing key, no re-commit; limits inclusive and exact; the four limit guards are re-translated from source "
+                      "and each reads exactly its own parameter. Model tied to the real parser by differential runs over mutated "
+                      "requests and boundary configurations. Partial: absence of panics is observed under recover.",
+        "level_note": "Trusted: Coq kernel + vm_compute (SHA-256/512, base64url, varint evaluated inside Coq); harness view builder; go2v.",
+        "technique": "Coq proof (acceptance implies rules) over a parser model with concrete hashing + source-regenerated limit guards + "
+                     "vm_compute correspondence on mutated requests x boundary configurations",
+    },
     "C13": {
         "cmd": "c13", "seed": 113, "gentie": 0, "corr": ["Batch"], "coq_dirs": ["Batch", "Corr/Batch", "Props/C13"],
         "rule": "batches of 1-12 client-built operations over 6 DIDs (all four types, anchor origins of every JSON kind, repeated "
